@@ -3,6 +3,7 @@ Model of client/pkg/internal/datatypes/{base,transaction,snapshot,wired}.go and 
 orda/{counter,map,list}.go ExecuteLocal/ExecuteRemote: one replica of one datatype.
 -/
 import Orda.Model.Datatypes
+import Orda.Model.Doc
 namespace Orda
 
 inductive DtType where
@@ -14,13 +15,14 @@ inductive DState where
   | counter (v : Int)
   | map (m : LwwMap)
   | list (l : Rga)
+  | doc (d : Doc)
 deriving Repr, Inhabited
 
 def DState.fresh : DtType → DState
   | .counter => .counter 0
   | .map => .map LwwMap.empty
   | .list => .list Rga.empty
-  | .document => .map LwwMap.empty  -- documents are modelled in Model/Doc; unused here
+  | .document => .doc Doc.empty
 
 /-- operations/*.go: bodies.  `pos`, `num` are the local-only fields (not on the wire). -/
 inductive OpBody where
@@ -33,6 +35,11 @@ inductive OpBody where
   | insert (pos : Nat) (t : Option Ts) (vs : List JVal)
   | delete (pos num : Nat) (tg : List Ts)
   | update (pos : Nat) (tg : List Ts) (vs : List JVal)
+  | docPut (p : Ts) (k : String) (v : JVal)
+  | docRemove (p : Ts) (k : String)
+  | docInsert (p : Ts) (pos : Nat) (t : Option Ts) (vs : List JVal)
+  | docDelete (p : Ts) (pos num : Nat) (tg : List Ts)
+  | docUpdate (p : Ts) (pos : Nat) (tg : List Ts) (vs : List JVal)
 deriving Repr, Inhabited
 
 structure Op where
@@ -45,6 +52,9 @@ def OpBody.wire : OpBody → OpBody
   | .insert _ t vs => .insert 0 t vs
   | .delete _ _ tg => .delete 0 0 tg
   | .update _ tg vs => .update 0 tg vs
+  | .docInsert p _ t vs => .docInsert p 0 t vs
+  | .docDelete p _ _ tg => .docDelete p 0 0 tg
+  | .docUpdate p _ tg vs => .docUpdate p 0 tg vs
   | b => b
 
 def Op.wire (o : Op) : Op := { o with body := o.body.wire }
@@ -60,6 +70,7 @@ inductive Ret where
   | int (i : Int)
   | val (v : Option JVal)
   | vals (vs : List JVal)
+  | nodes (ids : List Ts)      -- documents: the displaced / deleted nodes (rendered by the API layer)
 deriving Repr, Inhabited
 
 /-- ExecuteLocal of counter/map/list: new state, the op with its targets filled in, return value -/
@@ -87,6 +98,31 @@ def execLocal (s : DState) (ts : Ts) (b : OpBody) : Outcome (DState × OpBody ×
     | .ok (l', tg, old) => .ok (.list l', .update pos tg vs, .vals old)
     | .err c => .err c
     | .panic w => .panic w
+  | .doc d, .docPut p k v =>
+    match d.putInObject p k v ts with
+    | .ok (d', old) => .ok (.doc d', b, .nodes old.toList)
+    | .err c => .err c
+    | .panic w => .panic w
+  | .doc d, .docRemove p k =>
+    match d.deleteInObject p k ts true with
+    | .ok (d', old) => .ok (.doc d', b, .nodes old.toList)
+    | .err c => .err c
+    | .panic w => .panic w
+  | .doc d, .docInsert p pos _ vs =>
+    match d.insertLocalInArray p pos ts vs with
+    | .ok (d', a) => .ok (.doc d', .docInsert p pos (some a) vs, .none)
+    | .err c => .err c
+    | .panic w => .panic w
+  | .doc d, .docDelete p pos num _ =>
+    match d.deleteLocalInArray p pos num ts with
+    | .ok (d', tg, old) => .ok (.doc d', .docDelete p pos num tg, .nodes old)
+    | .err c => .err c
+    | .panic w => .panic w
+  | .doc d, .docUpdate p pos _ vs =>
+    match d.updateLocalInArray p pos ts vs with
+    | .ok (d', tg, old) => .ok (.doc d', .docUpdate p pos tg vs, .nodes old)
+    | .err c => .err c
+    | .panic w => .panic w
   | _, _ => .err Err.illegalOperation
 
 /-- ExecuteRemote of counter/map/list (errors are dropped by executeRemoteBase; a panic is not) -/
@@ -106,6 +142,32 @@ def execRemote (s : DState) (ts : Ts) (b : OpBody) : Outcome DState :=
   | .list l, .update _ tg vs =>
     match l.updateRemote tg vs ts with
     | .ok l' => .ok (.list l')
+    | .err _ => .ok s
+    | .panic w => .panic w
+  | .doc d, .docPut p k v =>
+    match d.putInObject p k v ts with
+    | .ok (d', _) => .ok (.doc d')
+    | .err _ => .ok s
+    | .panic w => .panic w
+  | .doc d, .docRemove p k =>
+    match d.deleteInObject p k ts false with
+    | .ok (d', _) => .ok (.doc d')
+    | .err _ => .ok s
+    | .panic w => .panic w
+  | .doc d, .docInsert p _ (some a) vs =>
+    match d.insertRemoteInArray p a ts vs with
+    | .ok d' => .ok (.doc d')
+    | .err _ => .ok s
+    | .panic w => .panic w
+  | .doc _, .docInsert _ _ none _ => .panic "InsertRemoteInArray: nil target timestamp"
+  | .doc d, .docDelete p _ _ tg =>
+    match d.deleteRemoteInArray p tg ts with
+    | .ok d' => .ok (.doc d')
+    | .err _ => .ok s
+    | .panic w => .panic w
+  | .doc d, .docUpdate p _ tg vs =>
+    match d.updateRemoteInArray p ts tg vs with
+    | .ok d' => .ok (.doc d')
     | .err _ => .ok s
     | .panic w => .panic w
   | _, _ => .ok s                        -- DatatypeIllegalOperation, dropped
